@@ -114,11 +114,11 @@ def scenarios(ctx):
             r = rnd.random()
             idx = rnd.randint(0, top - 1) if r < 0.9 else (high if r < 0.95 and high < 2 ** 31 else (-1 if r < 0.97 else rnd.randint(0, top - 1)))
             calls.append([idx, rnd.random() < 0.7])
-        out.append(dict(kind="direct", seed=rnd.randint(0, 2 ** 31 - 1), high=high, calls=calls))
+        out.append(dict(kind="direct", seed=(0 if rnd.random() < 0.05 else rnd.randint(0, 2 ** 31 - 1)), high=high, calls=calls))
     n_load = 60 if ctx.quick else 600
     for _ in range(n_load):
         n = rnd.randint(2, 8)
-        out.append(dict(kind="loader", seed=rnd.randint(0, 2 ** 31 - 1), high=2 ** 31,
+        out.append(dict(kind="loader", seed=(0 if rnd.random() < 0.1 else rnd.randint(0, 2 ** 31 - 1)), high=2 ** 31,
                         calls=[[rnd.randint(0, 25), True] for _k in range(n)]))
     return out, n_small
 
